@@ -41,16 +41,19 @@ let parse_res s =
    check): depth-first over "which pending record comes next", candidates in the order of the
    array (hint: return stamps), a hash table of the (placed set, specification state) pairs
    already explored.  Returns the positions of the records in linearization order. *)
-let lin_find (step : 'st -> 'op -> 'st * 'res) (key : 'st -> string) (s0 : 'st)
+let lin_find ?(optional : bool array option) (step : 'st -> 'op -> 'st * 'res) (key : 'st -> string) (s0 : 'st)
     (h : (int * int * 'op * 'res) array) (budget : int) : int list option =
   let n = Array.length h in
+  (* optional records (pending calls, with the result they eventually returned) may be left out *)
+  let opt i = (match optional with Some a -> a.(i) | None -> false) in
+  let nmand = (let c = ref 0 in for i = 0 to n - 1 do if not (opt i) then incr c done; !c) in
   let visited = Hashtbl.create 4096 in
   let placed = Bytes.make n '0' in
   let nodes = ref 0 in
   let result = ref None in
   let rec go st cnt acc =
     if !result <> None || !nodes > budget then ()
-    else if cnt = n then result := Some (List.rev acc)
+    else if cnt = nmand then result := Some (List.rev acc)
     else begin
       incr nodes;
       let minret = ref max_int in
@@ -67,7 +70,7 @@ let lin_find (step : 'st -> 'op -> 'st * 'res) (key : 'st -> string) (s0 : 'st)
               let k = Bytes.to_string placed ^ key st' in
               if not (Hashtbl.mem visited k) then begin
                 Hashtbl.add visited k ();
-                go st' (cnt + 1) (i :: acc)
+                go st' (if opt i then cnt else cnt + 1) (i :: acc)
               end;
               Bytes.set placed i '0'
             end
@@ -77,6 +80,38 @@ let lin_find (step : 'st -> 'op -> 'st * 'res) (key : 'st -> string) (s0 : 'st)
     end in
   go s0 0 [];
   !result
+
+(* the history cut at an instant t: the calls that had returned by t are complete, the calls in
+   flight at t are pending, later calls are not there yet.  The cut must be linearizable as a
+   history with pending calls: an untrusted search chooses which pending calls take effect (with
+   the results they eventually returned), the PROVED pcert check accepts.  Returns
+   (number of pending calls, certificate accepted). *)
+let cut_check cap (h : ('op, 'res) orec list) key : int * bool =
+  let stamps = List.sort compare (List.concat_map (fun e -> [int_of_n e.o_call; int_of_n e.o_ret]) h) in
+  if stamps = [] then (0, true) else begin
+    let t = List.nth stamps (List.length stamps / 2) in
+    let inf = List.fold_left max 0 stamps + 1 in
+    let h_c = List.filter (fun e -> int_of_n e.o_ret <= t) h in
+    let inflight = List.filter (fun e -> int_of_n e.o_call <= t && int_of_n e.o_ret > t) h in
+    if inflight = [] then (0, true) else begin
+      let nc = List.length h_c in
+      let arr = Array.of_list (List.map (fun e -> (int_of_n e.o_call, int_of_n e.o_ret, e.o_op, e.o_res)) h_c @
+                               List.map (fun e -> (int_of_n e.o_call, inf, e.o_op, e.o_res)) inflight) in
+      let optional = Array.init (Array.length arr) (fun i -> i >= nc) in
+      match lin_find ~optional r_step key (r_new cap) arr 1500000 with
+      | None -> (List.length inflight, false)
+      | Some l ->
+        (* the chosen pending calls, in the order they appear in the linearization *)
+        let chosen_pos = List.filter (fun i -> i >= nc) l in
+        let inflight_a = Array.of_list inflight in
+        let chosen = List.map (fun i -> (drv_nat_of_n (n_of_int (i - nc)), inflight_a.(i - nc).o_res)) chosen_pos in
+        let rank i = (let rec go k = function [] -> 0 | x :: r -> if x = i then k else go (k + 1) r in go 0 chosen_pos) in
+        let perm = List.map (fun i -> drv_nat_of_n (n_of_int (if i < nc then i else nc + rank i))) l in
+        let pend = List.map (fun e -> { pc_call = e.o_call; pc_op = e.o_op }) inflight in
+        let inf = n_of_int inf in
+        (List.length inflight, lru_pcert cap h_c pend inf chosen perm)
+    end
+  end
 
 let prog s = if s = "-" then [] else String.split_on_char ',' s
 
@@ -126,6 +161,7 @@ let check inp obs =
                    List.for_all (fun x -> x) (List.mapi (fun t p -> by_tid t = prog p) progs) &&
                    List.length recs = List.length (prog pre) + 1 + List.fold_left (fun a p -> a + List.length (prog p)) 0 progs in
     let bad_res = List.filter (fun (_, _, _, _, res) -> parse_res res = None) recs in
+    let cut = ref (0, true) in
     let verdict, why =
       if bad_res <> [] then (false, "impossible result " ^ (let (_, _, _, op, res) = List.hd bad_res in op ^ "->" ^ res))
       else begin
@@ -140,7 +176,7 @@ let check inp obs =
         let cert = (match lin_find r_step key (r_new cap) harr 1500000 with
             | Some l -> lru_cert cap h (List.map (fun i -> drv_nat_of_n (n_of_int i)) l)
             | None -> false) in
-        if cert then (true, "")
+        if cert then (cut := cut_check cap h key; (true, ""))
         else
         match lru_lin_complete (n_of_int 3000000) cap h with
         | Some true -> (true, "")
@@ -156,9 +192,12 @@ let check inp obs =
     Array.iteri (fun i (t1, c1, r1) -> Array.iteri (fun j (t2, c2, r2) ->
         if i < j && t1 <> t2 && c1 < r2 && c2 < r1 then incr overlaps) arr) arr;
     let tags = Printf.sprintf "%s,threads-%d,%s" (List.hd (split_ws inp)) (List.length progs)
-        (if !overlaps = 0 then "no-overlap" else if !overlaps < 10 then "overlap-1..9" else "overlap-10+") in
-    { prop_ok = verdict; model_eq = progs_ok; nontrivial = !overlaps > 0; finding = "-"; tags;
-      detail = (if verdict && progs_ok then "" else why ^ (if progs_ok then "" else " history does not match the programs")) }
+        ((if !overlaps = 0 then "no-overlap" else if !overlaps < 10 then "overlap-1..9" else "overlap-10+") ^
+         (match !cut with (0, _) -> ",cut-no-pending" | (k, true) -> if k < 3 then ",cut-pending-1..2" else ",cut-pending-3+"
+                         | (_, false) -> ",cut-unverified")) in
+    { prop_ok = verdict; model_eq = progs_ok && snd !cut; nontrivial = !overlaps > 0; finding = "-"; tags;
+      detail = (if verdict && progs_ok && snd !cut then "" else why ^ (if progs_ok then "" else " history does not match the programs") ^
+                (if snd !cut then "" else " the history cut at its median stamp (with its calls in flight as pending calls) found no accepted certificate")) }
   | ["probe"; meth; hold] ->
     let md = (match meth with "Get" -> lru_mode_get | "Put" -> lru_mode_put
                                | _ -> fail "C35: bad method %s" meth) in
@@ -171,6 +210,53 @@ let check inp obs =
       detail = (if prop && ran = pred_runs then "" else
                 Printf.sprintf "%s %s while the harness held the %s lock (lock table predicts %s)" meth obs
                   (if hold_x then "exclusive" else "shared") (if pred_runs then "ran" else "blocked")) }
+  | "typed" :: kind :: cap :: ops ->
+    (* the instantiations of the users of the cache: same specification, keys/values encoded *)
+    let cap = n_of_hex cap in
+    let pops = List.map parse_op ops in
+    let show l = if l = [] then "-" else String.concat " " (List.map str_res l) in
+    let r = show (r_run (r_new cap) pops) in
+    let p = show (p_run (p_new cap) pops) in
+    { prop_ok = (r = obs); model_eq = (p = obs); nontrivial = List.length pops >= 2; finding = "-";
+      tags = "typed,typed-" ^ kind;
+      detail = (if r = obs && p = obs then "" else Printf.sprintf "rspec=[%s] pmodel=[%s]" r p) }
+  | "rl" :: maxr :: ops ->
+    (* SlidingWindowRateLimiter with a window that never expires: a counter per id in an LRU cache of
+       500 entries; AddRequest = Get, Put count+1; IsLimitExceeded = Get, Put count; answer count > max *)
+    let maxr = int_of_n (n_of_hex maxr) in
+    let st = ref (r_new (n_of_int 500)) in
+    let evicting = ref false in
+    let out = List.map (fun o ->
+        let id = (match String.split_on_char ':' o with [_; id] -> n_of_hex id | _ -> fail "C35: bad rl op %s" o) in
+        let (s1, got) = r_step !st (Get id) in
+        let cnt = (match got with RVal v -> int_of_n v | _ -> 0) in
+        let full = List.length s1.r_items >= 500 in
+        let known = List.exists (fun (k, _) -> k = id) s1.r_items in
+        if full && not known then evicting := true;
+        if o.[0] = 'a' then begin
+          st := fst (r_step s1 (Put (id, n_of_int (cnt + 1)))); "u"
+        end else begin
+          st := fst (r_step s1 (Put (id, n_of_int cnt))); if cnt > maxr then "b:1" else "b:0"
+        end) ops in
+    let m = if out = [] then "-" else String.concat " " out in
+    { prop_ok = (m = obs); model_eq = (m = obs); nontrivial = List.length ops >= 2; finding = "-";
+      tags = "user-ratelimiter" ^ (if !evicting then ",user-ratelimiter-evicts" else "") ^
+             (if List.mem "b:1" out then ",user-ratelimiter-exceeded" else "");
+      detail = (if m = obs then "" else "the limiter does not behave as a counter per id kept in an LRU cache of 500 entries") }
+  | "tc" :: fill :: ops ->
+    (* TrieInMemoryCache node cache: LRU cache of 10000 entries *)
+    let fill = int_of_n (n_of_hex fill) in
+    let st = ref (r_new (n_of_int 10000)) in
+    for i = 0 to fill - 1 do st := fst (r_step !st (Put (n_of_int i, n_of_int (i + 1)))) done;
+    let out = List.map (fun o ->
+        match String.split_on_char ':' o with
+        | ["s"; k; v] -> st := fst (r_step !st (Put (n_of_hex k, n_of_hex v))); "u"
+        | ["n"; k] -> let (s1, got) = r_step !st (Get (n_of_hex k)) in st := s1; str_res got
+        | _ -> fail "C35: bad tc op %s" o) ops in
+    let m = if out = [] then "-" else String.concat " " out in
+    { prop_ok = (m = obs); model_eq = (m = obs); nontrivial = true; finding = "-";
+      tags = "user-triecache" ^ (if fill >= 9998 then ",user-triecache-evicts" else "");
+      detail = (if m = obs then "" else "the node cache does not behave as an LRU cache of 10000 entries; model=[" ^ m ^ "]") }
   | ["shape"; meth] ->
     let good = (obs = "1:1:1:0:1:1") in
     let table_ok = lru_discipline_ok in
